@@ -7,13 +7,16 @@
 EXTENDS FileDest, Json, IOUtils, TLCExt
 TraceFile == JsonDeserialize(IOEnv.TRACE_FILE)
 Traces == TraceFile.traces
-VARIABLES tid, l, bad
+VARIABLES tid, l, bad,
+          inflush     \* the child reported that a flush began ("F") and not yet that it returned ("f")
 Ev == Traces[tid].ev[l]
 NE == Len(Traces[tid].ev)
-TInit == tid \in DOMAIN Traces /\ l = 1 /\ bad = "" /\ Init
+TInit == tid \in DOMAIN Traces /\ l = 1 /\ bad = "" /\ inflush = FALSE /\ Init
 Inv == C11_AckedDurable /\ C11_InOrderPrefix /\ C11_AtMostOneFragment /\ C10_OneWriteThenFlush
 TEv == /\ l <= NE /\ bad = "" /\ ~crashed
-       /\ CASE Ev = "w" /\ pc = "flushed" -> Return /\ UNCHANGED <<tid, l, bad>>       \* one logging call may emit several messages
+       /\ inflush' = (IF Ev = "F" THEN TRUE ELSE IF Ev = "f" THEN FALSE ELSE inflush)
+       /\ CASE Ev = "F" -> l' = l + 1 /\ UNCHANGED <<tid, bad>> /\ UNCHANGED vars
+            [] Ev = "w" /\ pc = "flushed" -> Return /\ UNCHANGED <<tid, l, bad>>       \* one logging call may emit several messages
             [] Ev = "w" /\ pc = "flushfailed" -> WriteReport /\ l' = l + 1 /\ UNCHANGED <<tid, bad>>
             [] Ev = "x" -> (IF pc = "written" /\ ~ffail /\ k < N THEN FlushFail /\ l' = l + 1 /\ UNCHANGED <<tid, bad>>
                             ELSE bad' = "HARNESS.flush_fault_out_of_place" /\ UNCHANGED <<tid, l>> /\ UNCHANGED vars)
@@ -25,7 +28,9 @@ TEv == /\ l <= NE /\ bad = "" /\ ~crashed
             [] Ev = "a" -> (IF pc = "flushed" THEN Return /\ l' = l + 1 /\ UNCHANGED <<tid, bad>>
                             ELSE IF pc = "idle" THEN l' = l + 1 /\ UNCHANGED <<tid, bad>> /\ UNCHANGED vars          \* a call that wrote nothing (e.g. add_success_fields)
                             ELSE bad' = "call_returned_before_flush" /\ UNCHANGED <<tid, l>> /\ UNCHANGED vars)
-TCrash == /\ l = NE + 1 /\ bad = "" /\ ~crashed /\ Crash /\ UNCHANGED <<tid, l, bad>>
+TCrash == /\ l = NE + 1 /\ bad = "" /\ ~crashed /\ Crash /\ UNCHANGED <<tid, l, bad, inflush>>
+\* the process died inside flush(): the flush may have completed in the kernel although its return was never reported
+TLateFlush == /\ l = NE + 1 /\ bad = "" /\ ~crashed /\ inflush /\ pc = "written" /\ Flush /\ inflush' = FALSE /\ UNCHANGED <<tid, l, bad>>
 Observed == /\ Len(Complete) = Traces[tid].complete
             /\ (\E i \in DOMAIN kfile : kfile[i].part = "head") = Traces[tid].fragment
 FinalClause == IF bad # "" THEN bad
@@ -35,11 +40,11 @@ FinalClause == IF bad # "" THEN bad
                ELSE ""
 TDone == /\ l <= NE + 1 /\ (bad # "" \/ (crashed /\ Observed))
          /\ PrintT(<<"ACC", tid, FinalClause>>)
-         /\ l' = NE + 2 /\ UNCHANGED <<tid, bad>> /\ UNCHANGED vars
+         /\ l' = NE + 2 /\ UNCHANGED <<tid, bad, inflush>> /\ UNCHANGED vars
 \* what the file really holds may also exceed nothing the model allows: report it by name
 TMismatch == /\ l = NE + 1 /\ bad = "" /\ crashed /\ ~Observed
              /\ Traces[tid].complete < Cardinality(acked \ failed)
-             /\ bad' = "acknowledged_message_not_in_file" /\ UNCHANGED <<tid, l>> /\ UNCHANGED vars
-TNext == TEv \/ TCrash \/ TDone \/ TMismatch
-TraceSpec == TInit /\ [][TNext]_<<vars, tid, l, bad>>
+             /\ bad' = "acknowledged_message_not_in_file" /\ UNCHANGED <<tid, l, inflush>> /\ UNCHANGED vars
+TNext == TEv \/ TCrash \/ TLateFlush \/ TDone \/ TMismatch
+TraceSpec == TInit /\ [][TNext]_<<vars, tid, l, bad, inflush>>
 =============================================================================
